@@ -36,7 +36,7 @@ def base(**kw):
     return sc
 
 
-PREP_RESPONSES = [[2, 7], [2, 8], [0], [1], [3, 3, 21], [3, 6, 21], [3, 0, 21], [3, 7, 21], [3, 8, 21], [4, 7, 21], [5, 21], [5, 22],
+PREP_RESPONSES = [[2, 7], [2, 8], [2, 6], [0], [1], [3, 3, 21], [3, 6, 21], [3, 0, 21], [3, 7, 21], [3, 8, 21], [4, 7, 21], [5, 21], [5, 22],
                   [6, 21], [7]]
 AFTER = [[0], [1], [3, 2, 31], [4, 7, 31], [5, 31]]
 
@@ -54,7 +54,7 @@ def sequences(ctx):
                             continue
                         for pr in PREP_RESPONSES:
                             for st in ((6, 2) if pr in ([2, 7], [3, 7, 21]) else (6,)):
-                                if ctx.tier == 'quick' and ctx.rng.random() < 0.55 and pr not in ([2, 7], [2, 8]):
+                                if ctx.tier == 'quick' and ctx.rng.random() < 1 - 0.45 * K.SCALE and pr not in ([2, 7], [2, 8], [2, 6]):
                                     continue
                                 sc = base(pv=pv, ks=cks, ps=[7, 3, pks] if has_ps else None, known=known)
                                 run = H.Run(sc)
@@ -107,7 +107,7 @@ def run(ctx):
     sq = sequences(ctx)
     items += sq
     ctx.count('source', 'sequences_around_unprepared', len(sq))
-    rd = randoms(ctx, 700 if ctx.tier == 'quick' else 20000)
+    rd = randoms(ctx, int((700 if ctx.tier == 'quick' else 8000) * K.SCALE))
     items += rd
     ctx.count('source', 'random_history', len(rd))
     for sc, obs, bad, tags in items:
@@ -115,7 +115,7 @@ def run(ctx):
     ctx.exhaustive = ctx.tier == 'thorough'
     ctx.rule = ('sequences around UNPREPARED: protocol version {3,4,5,DSE_V1,DSE_V2} x statement keyspace x connection keyspace x '
                 'statement known to cluster._prepared_statements (same / different text / absent) x future carries the prepared '
-                'statement? x 14 answers to the PREPARE (same id, other id, rows, void, 5 server/connection errors, UNPREPARED, two '
+                'statement? x 15 answers to the PREPARE (same id, larger id, smaller id, rows, void, 5 server/connection errors, UNPREPARED, two '
                 'other errors, other exception, junk) x pool state when the task runs x answer to the re-sent request (complete in the '
                 'thorough tier, 45% sample of the non-PREPARED answers in quick); plus random legal histories biased to UNPREPARED. '
                 'Non-trivial = at least 4 operations (2 for random); distinct = distinct scenario incl. history.')
